@@ -6,4 +6,4 @@ ASSUMPTIONS = ['separators / . é 😀; names contain no separator or JSON delim
 
 
 def run(rep, rng, tier):
-    run_typelevel(rep, "C04", cases_c04, rng, tier, RULE, ASSUMPTIONS)
+    run_typelevel(rep, "C04", cases_c04, rng, tier, RULE, ASSUMPTIONS, allow_bv=True)
